@@ -16,6 +16,7 @@ import (
 	"fmt"
 	"os"
 	"runtime"
+	"strings"
 	"sort"
 	"strconv"
 	"sync"
@@ -233,6 +234,7 @@ func runScenario(sc Scenario, emit func(Line)) {
 	idx := 0
 	var brest []byte
 	bmKa, bmLast, bmClosed := -1, 0, false // broker model: keep-alive (ticks), last packet seen
+	leakChecked := false
 	snapshot := func(ev TraceEv) Line {
 		col.mu.Lock()
 		cs := col.c
@@ -263,6 +265,12 @@ func runScenario(sc Scenario, emit func(Line)) {
 		}
 		if l.Ended && len(brest) > 0 {
 			l.BJunk = true
+		}
+		if l.Ended && !leakChecked {
+			// first observation after run() returned (the bubble is quiescent: every remaining goroutine
+			// is blocked): goroutines with frames of the code under test have outlived their session
+			leakChecked = true
+			l.Leaked = sessionGoroutines()
 		}
 		l.St = sess.State().String()
 		l.NBuf = sess.Buffered()
@@ -418,4 +426,19 @@ func runScenario(sc Scenario, emit func(Line)) {
 		os.Exit(3)
 	}
 	_ = strconv.Itoa
+}
+
+// sessionGoroutines counts the goroutines that are executing code of the repository under test
+// (a stack frame in github.com/energomonitor/bisquitt/) - the driver runs one scenario at a time,
+// so they all belong to the session of the current scenario.
+func sessionGoroutines() int {
+	buf := make([]byte, 1<<20)
+	n := runtime.Stack(buf, true)
+	cnt := 0
+	for _, g := range strings.Split(string(buf[:n]), "\n\n") {
+		if strings.Contains(g, "github.com/energomonitor/bisquitt/") && !strings.Contains(g, "sessionGoroutines") {
+			cnt++
+		}
+	}
+	return cnt
 }
